@@ -1,40 +1,52 @@
 (* Refinement of MVP-6.3 to the sequential machine on single-assignment, register-only,
-   straight-line programs - part 3: what is proved, examples, refutations.
+   straight-line programs - part 6: the theorems, examples, refutations.
 
-   INTENDED THEOREM (not proved in full; see PARTIAL RESULTS below):
-     mvp63_refines_seq_ssa_straight :
-       forall app labels, wf_app app -> straight app = true -> reg_only app = true ->
-       ssa app = true -> regs_ok app = true ->
-       forall par ord fuel st st' tr, (1 <= par)%nat ->
-       Forall int32 (regs st) -> length (regs st) = 32%nat -> nth 0 (regs st) 0 = 0 ->
-       seq_run fuel (map sinstr_of app) labels st = Done st' tr ->
-       exists c, forall fuel', (bound (length app) <= fuel')%nat ->
-         mvp63_run_os par ord fuel' app labels st = (MDone c st', false).
+   PROVED (this file, section Straight63), for every app with wf_app, straight, reg_only, ssa, regs_ok, every
+   initial state with 32 int32 registers and x0 = 0, every par >= 1, EVERY order function ord (Go's map
+   iteration orders), whenever seq_run ... = Done st' tr:
+     mvp63_run_ssa_straight              exists c, forall fuel' >= fuel_bound63 (length app),
+                                           mvp63_run_os par ord fuel' app labels st = (MDone c st', false)
+                                         and length tr <= 2 * c          (fuel_bound63 n = 400 n + 1600 ticks)
+     mvp63_refines_seq_ssa_straight      the same for mvp63_run
+     mvp63_ghost_clear_ssa_straight      the ghost flag is clear on the whole run
+     mvp63_deterministic_ssa_straight    any two orders give the sequential state; the same cycle count when
+                                         they are related by ords_ok3 (Mvp63Proofs.mvp63_ord_irrelevant)
+     mvp63_cycles_lower_bound_ssa_straight   whenever the model finishes: st', ceil(executed / 2) <= cycles
+     mvp63_terminates_ssa_straight, mvp63_no_panic_ssa_straight
+     mvp63_ssa_example_any               the 14-instruction example as an instance: any par, any ord.
 
-   PARTIAL RESULTS (Mvp63RefInv.v), all for every program of the class, every order function, every
-   state that satisfies the back-end invariant BI dp d xe w pend prev x
-   (w <= xe <= d instructions written back / executed / dispatched; execute bus = runners xe..d-1,
-   write bus = results w..xe-1, scoreboards = counts of w..d-1, alias tables = sequential register
-   file after w instructions, channel discipline RecvOK / FwdOK, ghost flag clear):
-     cu_cycle_ok      controlUnit.cycle keeps BI (and the front-end invariant FrontI of MVP-6.0's
-                      proof), dispatches in order, at most through ONE RAW hazard with a forwarding
-                      channel from the unique earlier writer, never through a WAW / WAR hazard (there
-                      is none), keeps the ghost flag clear (the forwarding source is unique), and
-                      dispatches the head of the stream when nothing is in flight (progress);
-     head_operands    the instruction at the head of the execute bus reads, through registerRead with
-                      the forward field it received (head_fw), exactly its SEQUENTIAL operands, and
-                      Runner.Run returns the sequential execution record;
-     wu_take_ok       a write unit that takes the oldest result keeps BI with w + 1;
-     handle_ok, BI_push, BI_mark   the cases of handleRunner.
-   MISSING for the intended theorem: the execute units at machine level (eu_cycle3 on the head:
-   unfolding + head_operands + the channel updates), the loops over the units, the bridge
-   du_cycle3 = du_cycle6 (+ cleared forward fields), one tick of Run (timing invariant as TI of
-   Mvp60RefStep.v: idle execute units and empty write-bus queue between ticks), RATCommit / RATFlush
-   at the end (Comp/RatProofs.fold_rat_write_read), the potential for termination. *)
+   Structure of the proof
+     Mvp63RefDefs.v   the class (ssa, regs_ok), tv / view: what the alias tables hold after w write-backs
+     Mvp63RefInv.v    the back-end invariant BI (35 fields) and the control unit (cu_cycle_ok), head_operands,
+                      wu_take_ok
+     Mvp63RefExec.v   executeUnit.Cycle on the head of the execute bus (eu_head_eq: receive, run with the
+                      sequential operands, send, push), BI afterwards (BI_exec_head), the loops over the execute
+                      units (eus_main_plain, eus_main_ret, eus_drain_idle) and the write units (wus_ok3)
+     Mvp63RefRat.v    InitRAT (init_rat_read), RATCommit ; RATFlush (commit_flush, finish3_ok)
+     Mvp63RefStep.v   du_cycle3 = du_cycle6 while ctx.sequenceID = 0 and the forward fields are clear (fd_ok3 on top
+                      of Mvp60RefStep.fd_ok), the Connect calls, the invariants G3 (main loop: FrontI of the
+                      MVP-6.0 proof + BI + idle units / empty write-bus queue between ticks) and GR3 (drain loop
+                      after ret), the potential phi3, one tick in either loop (step_normal3, step_ret3), seg_run3
+     this file        initial state (init3_G3), the theorems; the sequential side is Mvp60RefSeg.seg_seq_fin.
+
+   NOT PROVED: the extension to forward control flow (branches / jumps strictly ahead, no div / rem / jalr) on
+   single-assignment programs, the analogue of mvp61_refines_seq_forward.  No counterexample is known (search
+   over 178 000 programs).  What a proof needs beyond this development:
+     - BI with ctx.sequenceID = sq > 0 (tags pcz k + 1000 sq, Mvp61RefFront.sid), bi_pcb = true while a
+       conditional branch is in flight, at most one such branch (handleRunner stops at a second one);
+     - the alias tables across RATCommit / RATRollback: committedRAT = sequential file after the branch,
+       transactionRAT empty (bi_crat / bi_trat relative to a base index instead of regs0), including the results
+       of the shadow of a taken branch that were written with larger tags and are filtered by FindValues;
+     - the two flush loops (NFlushE: execute units finish older instructions, Pre hook drops younger ones;
+       NFlushW: write units drop results younger than the branch), do_flush3, a Fresh3 state per segment and the
+       segment induction of Mvp61RefProofs.fwd_core1; forwarding channels whose receiver is flushed.
+   The straight-line development is the segment lemma such a proof would iterate. *)
 From Coq Require Import ZArith List Bool Lia.
 From Maj Require Import Base.Outcome Base.GoInt Base.GoTypes Isa.Spec Isa.Seq Isa.Refine Gen.Opcodes.
-From Maj Require Import Mvp.Mvp12 Mvp.Mvp12Proofs Mvp.Mvp4Skel Mvp.Mvp60 Mvp.Mvp60RefDefs Mvp.Mvp63 Mvp.Mvp63Proofs
-     Mvp.Mvp63RefDefs Mvp.Mvp63RefInv.
+From Maj Require Import Gen.Latency Comp.Cache Comp.Rat Comp.RatProofs.
+From Maj Require Import Mvp.Mvp12 Mvp.Mvp12Proofs Mvp.Mvp3 Mvp.Mvp3Proofs Mvp.Mvp4Skel Mvp.Mvp60 Mvp.Mvp60Proofs Mvp.Mvp60RefSem Mvp.Mvp60RefDefs
+     Mvp.Mvp60RefFront Mvp.Mvp60RefBack Mvp.Mvp60RefStep Mvp.Mvp60RefStep2 Mvp.Mvp60RefSeg Mvp.Mvp60RefProofs
+     Mvp.Mvp63 Mvp.Mvp63Proofs Mvp.Mvp63RefDefs Mvp.Mvp63RefInv Mvp.Mvp63RefExec Mvp.Mvp63RefRat Mvp.Mvp63RefStep.
 Import ListNotations.
 Open Scope Z_scope.
 
@@ -167,5 +179,223 @@ Example mvp63_non_ssa_order_dependent :
   = [(Some 3, Some 93); (Some 3, Some 93); (Some 3, Some 93); (Some 3, Some 93)].
 Proof. split; vm_compute; reflexivity. Qed.
 
+
+(* ------------------------------------------------------------------ *)
+(* the initial state                                                    *)
+
+Definition fuel_bound63 (n : nat) : nat := (400 * n + 1600)%nat.
+
+Lemma run3_more app labels ord : forall fuel k s r, run3_st fuel app labels ord s = inl r -> run3_st (fuel + k) app labels ord s = inl r.
+Proof.
+  induction fuel as [|fuel IH]; intros k s r H; [discriminate|]. cbn [run3_st Nat.add] in *.
+  destruct (step3 app labels ord s); [exact H | apply IH; exact H].
+Qed.
+
+Lemma mvp63_run_os_more app labels par ord fuel k st c st' os :
+  mvp63_run_os par ord fuel app labels st = (MDone c st', os) -> mvp63_run_os par ord (fuel + k) app labels st = (MDone c st', os).
+Proof.
+  unfold mvp63_run_os. destruct (init3 par ord app st) as [s0| |]; try discriminate.
+  destruct (run3_st fuel app labels ord s0) as [r|s'] eqn:E; [|discriminate].
+  intros H. rewrite (run3_more app labels ord _ k _ _ E). exact H.
+Qed.
+
+Section Init3.
+  Variables (app : list instr) (labels : Z -> option Z) (ord : Z -> Z -> list Z -> list Z).
+
+  (* NewCPU ; InitRAT: the invariant of the main loop with nothing dispatched *)
+  Lemma init3_G3 par st : (1 <= par)%nat -> length (regs st) = 32%nat -> Forall int32 (regs st) ->
+    exists s0, init3 par ord app st = Ok s0 /\ G3 app labels (regs st) (mem st) 0 0 0 0 0 0 s0 /\ t_cycle s0 = 0 /\
+               mu3 app s0 < Z.of_nat (fuel_bound63 (length app)).
+  Proof.
+    intros Hpar Hlen Hr32.
+    destruct (init_fresh app par st Hpar) as (s6 & E6 & HF & Hc0).
+    assert (Hle : (length (regs st) <= 32)%nat) by lia.
+    pose proof (fresh_GI app labels (mem st) 0 (regs st) 0 s6 HF ltac:(lia) Hle Hr32 ltac:(rewrite Hc0; lia)) as HG.
+    pose proof (gi_front _ _ _ _ _ _ _ _ _ _ _ HG) as HFr.
+    unfold init6 in E6. unfold init3.
+    destruct (new_cache l1LineSize l1Size) as [ci| |]; try discriminate E6.
+    change (new_cache l3LineSize l3Size) with (Ok (mkCache 16 64 [])) in E6 |- *.
+    injection E6 as <-. cbn [s_m s_cycle] in HFr.
+    destruct (init_rat_read ord (regs st)) as [Hcok Hcrd].
+    eexists. split; [reflexivity|]. split; [|split; [reflexivity|]].
+    - constructor; cbn [t_x t_eus t_wus t_cycle t_mode x_m x_ebus x_pend x_prev length Nat.add].
+      + exact HFr.
+      + reflexivity.
+      + constructor; cbn [x_m x_ebus x_pend x_prev x_pcb x_seq x_crat x_trat x_fwd x_chan x_next x_os m_pw m_pr m_regs m_mem m_l3 m_wbus
+                          flat bb_new bb_q bb_buf map List.app recvs fwds flat_map seq Nat.sub lines length];
+          try reflexivity; try (constructor; fail); try lia.
+        * intros s Hs. unfold zero_sb. rewrite nth_repeat_same. reflexivity.
+        * intros s Hs. unfold zero_sb. rewrite nth_repeat_same. reflexivity.
+        * exact Hcok.
+        * intros r. rewrite Hcrd, Hlen. reflexivity.
+        * apply rat_new_ok. unfold ratLength. lia.
+        * intros p [].
+      + apply busok_new.
+      + unfold blen, bb_new. cbn. lia.
+      + apply Forall_forall. intros e He. apply repeat_spec in He. subst e. split; reflexivity.
+      + apply Forall_forall. intros e He. apply repeat_spec in He. subst e. reflexivity.
+      + destruct par; [lia | discriminate].
+      + rewrite !repeat_length. reflexivity.
+      + reflexivity.
+      + unfold blen, bb_new. cbn. lia.
+      + unfold blen, bb_new. cbn. lia.
+      + lia.
+      + reflexivity.
+    - unfold mu3, phi3, phiX. cbn [t_mode t_x x_m x_ebus x_pend m_fu m_dbus m_cbus m_wbus].
+      unfold phiF, phi_co. cbn [f_pc f_co]. unfold blen, qlen, zlen, bb_new. cbn [bb_buf bb_q length].
+      unfold fuel_bound63, MemoryAccess. lia.
+  Qed.
+End Init3.
+
+(* ------------------------------------------------------------------ *)
+(* the theorems                                                         *)
+
+Section Straight63.
+  Variables (app : list instr) (labels : Z -> option Z).
+  Hypothesis Happ : wf_app app.
+  Hypothesis Hstr : straight app = true.
+  Hypothesis Hreg : reg_only app = true.
+  Hypothesis Hssa : ssa app = true.
+  Hypothesis Hrng : regs_ok app = true.
+  Let n := length app.
+  Let sp := map sinstr_of app.
+
+  Variables (par : nat) (fuel : nat) (st st' : arch) (tr : list Z).
+  Hypothesis Hpar : (1 <= par)%nat.
+  Hypothesis Hr32 : Forall int32 (regs st).
+  Hypothesis Hlen : length (regs st) = 32%nat.
+  Hypothesis Hx0 : nth 0 (regs st) 0 = 0.
+  Hypothesis Hrun : seq_run fuel sp labels st = Done st' tr.
+
+  Lemma hsem63 : forall k, (0 <= k <= stop_from app 0)%nat -> (k < n)%nat ->
+    exec (sinstr_of (ik app k)) (rget (sreg app labels (regs st) 0 k)) labels (pcz k) [] = Ok (eff app labels (regs st) 0 k) /\
+    (forall a, etarget (eff app labels (regs st) 0 k) = Some a -> exists t, a = pcz t /\ (k < t <= n)%nat).
+  Proof. apply (hsem_straight app labels Hstr Hreg par fuel st st' tr Hpar Hr32 ltac:(lia) Hrun). Qed.
+
+  (* the machine of MVP-6.3 computes the sequential registers and memory on single-assignment register-only
+     straight-line programs: for every number of units, every iteration order of Go's maps, all fuels from
+     fuel_bound63 (length app) on; the ghost flag stays clear; the cycle count is at least half the number of
+     executed instructions *)
+  Theorem mvp63_run_ssa_straight ord :
+    exists c, (forall fuel', (fuel_bound63 (length app) <= fuel')%nat -> mvp63_run_os par ord fuel' app labels st = (MDone c st', false)) /\
+              Z.of_nat (length tr) <= 2 * c.
+  Proof.
+    destruct (init3_G3 app labels ord par st Hpar Hlen Hr32) as (s0 & E0 & HG & Hc0 & Hmu).
+    destruct (seg_run3 app labels (regs st) (mem st) ord Happ Hstr Hreg Hssa Hrng Hlen Hr32 Hx0 hsem63 (fuel_bound63 n) s0
+                (SI3_n _ _ _ _ _ _ _ _ _ _ _ HG) Hmu) as (k & r & Hk & Hr & HFin).
+    pose proof Hrun as Hrun'. unfold seq_run in Hrun'. assert (Hst : st = mk_arch (regs st) (mem st)) by (destruct st; reflexivity).
+    rewrite Hst in Hrun' at 1. change 0 with (pcz 0) in Hrun'.
+    destruct (seg_seq_fin app labels (regs st) (mem st) 0 0 Hreg ltac:(lia) ltac:(lia) hsem63 r fuel [] st' tr HFin Hrun') as (cf & -> & Hcf).
+    exists cf. split.
+    - intros fuel' Hf. unfold mvp63_run_os. rewrite E0. fold n in Hf.
+      replace fuel' with (k + (fuel' - k))%nat by lia. rewrite Hr. reflexivity.
+    - cbn [length] in Hcf. rewrite Nat.sub_0_r, Nat.add_0_r in Hcf. lia.
+  Qed.
+
+  (* 1. refinement *)
+  Theorem mvp63_refines_seq_ssa_straight ord :
+    exists c, forall fuel', (fuel_bound63 (length app) <= fuel')%nat -> mvp63_run par ord fuel' app labels st = MDone c st'.
+  Proof. destruct (mvp63_run_ssa_straight ord) as (c & H & _). exists c. intros fuel' Hf. unfold mvp63_run. rewrite (H fuel' Hf). reflexivity. Qed.
+
+  (* 2. the ghost flag is clear on the whole run: no store order, no ambiguous forwarding source *)
+  Theorem mvp63_ghost_clear_ssa_straight ord fuel' : (fuel_bound63 (length app) <= fuel')%nat ->
+    snd (mvp63_run_os par ord fuel' app labels st) = false.
+  Proof. intros Hf. destruct (mvp63_run_ssa_straight ord) as (c & H & _). rewrite (H fuel' Hf). reflexivity. Qed.
+
+  (* 3. determinism: every iteration order of Go's maps gives the sequential state; two orders that are iteration
+        orders and agree on the alias-table maps give the same cycle count as well (Mvp63Proofs.mvp63_ord_irrelevant) *)
+  Theorem mvp63_deterministic_ssa_straight ord1 ord2 fuel' : (fuel_bound63 (length app) <= fuel')%nat ->
+    exists c1 c2, mvp63_run par ord1 fuel' app labels st = MDone c1 st' /\ mvp63_run par ord2 fuel' app labels st = MDone c2 st' /\
+                  (ords_ok3 ord1 ord2 -> c1 = c2).
+  Proof.
+    intros Hf. destruct (mvp63_run_ssa_straight ord1) as (c1 & H1 & _). destruct (mvp63_run_ssa_straight ord2) as (c2 & H2 & _).
+    exists c1, c2. unfold mvp63_run. rewrite (H1 fuel' Hf), (H2 fuel' Hf). split; [reflexivity|]. split; [reflexivity|].
+    intros Ho. pose proof (mvp63_ord_irrelevant par fuel' app labels st ord1 ord2 _ Ho (H1 fuel' Hf)) as H. rewrite (H2 fuel' Hf) in H.
+    injection H as ->. reflexivity.
+  Qed.
+
+  (* 4. whenever the model finishes, with whatever fuel, it returns the sequential state and has counted at least
+        ceil(executed / 2) cycles *)
+  Theorem mvp63_cycles_lower_bound_ssa_straight ord fuel' c st'' :
+    mvp63_run par ord fuel' app labels st = MDone c st'' ->
+    st'' = st' /\ Z.of_nat (length tr) <= 2 * c /\ (Z.of_nat (length tr) + 1) / 2 <= c.
+  Proof.
+    intros H. destruct (mvp63_run_ssa_straight ord) as (c0 & H1 & H2).
+    unfold mvp63_run in H. destruct (mvp63_run_os par ord fuel' app labels st) as [r os] eqn:E. cbn [fst] in H. subst r.
+    pose proof (mvp63_run_os_more app labels par ord fuel' (fuel_bound63 (length app)) st c st'' os E) as H'.
+    rewrite (H1 (fuel' + fuel_bound63 (length app))%nat ltac:(lia)) in H'. injection H' as -> -> _.
+    split; [reflexivity|]. split; [exact H2|]. assert (Hd := Z.div_lt_upper_bound (Z.of_nat (length tr) + 1) 2 (c + 1)); lia.
+  Qed.
+
+  (* 5. termination within the bound *)
+  Theorem mvp63_terminates_ssa_straight ord :
+    exists c, mvp63_run par ord (fuel_bound63 (length app)) app labels st = MDone c st' /\ (Z.of_nat (length tr) + 1) / 2 <= c.
+  Proof.
+    destruct (mvp63_run_ssa_straight ord) as (c & H1 & H2). exists c. unfold mvp63_run. rewrite (H1 _ (le_n _)). split; [reflexivity|].
+    assert (Hd := Z.div_lt_upper_bound (Z.of_nat (length tr) + 1) 2 (c + 1)); lia.
+  Qed.
+
+  (* 6. no panic, no error, no exhausted budget *)
+  Corollary mvp63_no_panic_ssa_straight ord fuel' : (fuel_bound63 (length app) <= fuel')%nat ->
+    mvp63_run par ord fuel' app labels st <> MPanic /\ mvp63_run par ord fuel' app labels st <> MOutOfFuel /\
+    (forall e, mvp63_run par ord fuel' app labels st <> MErr e).
+  Proof.
+    intros Hf. destruct (mvp63_refines_seq_ssa_straight ord) as (c & Hc). rewrite (Hc fuel' Hf). repeat split; try discriminate.
+  Qed.
+End Straight63.
+
+(* the example is an instance of the theorem: at every number of units and for EVERY order function *)
+Corollary mvp63_ssa_example_any par ord : (1 <= par)%nat ->
+  exists c st', seq_run 100 (map sinstr_of (map instr_of ex63_prog)) no_labels zero32 = Done st' (rev (map (fun k => 4 * Z.of_nat k) (seq 0 14))) /\
+    (forall fuel, (fuel_bound63 14 <= fuel)%nat -> mvp63_run_os par ord fuel (map instr_of ex63_prog) no_labels zero32 = (MDone c st', false)) /\
+    rget (regs st') 18 = 251 /\ 7 <= c.
+Proof.
+  intros Hpar.
+  assert (Hseq : exists st', seq_run 100 (map sinstr_of (map instr_of ex63_prog)) no_labels zero32 = Done st' (rev (map (fun k => 4 * Z.of_nat k) (seq 0 14))) /\ rget (regs st') 18 = 251).
+  { eexists. split; vm_compute; reflexivity. }
+  destruct Hseq as (st' & Hs & R18).
+  assert (Hwf : wf_app (map instr_of ex63_prog)) by (split; [|vm_compute; reflexivity]; unfold ex63_prog; cbn [map]; repeat constructor; vm_compute; discriminate).
+  assert (H1 : straight (map instr_of ex63_prog) = true) by (vm_compute; reflexivity).
+  assert (H2 : reg_only (map instr_of ex63_prog) = true) by (vm_compute; reflexivity).
+  assert (H3 : ssa (map instr_of ex63_prog) = true) by (vm_compute; reflexivity).
+  assert (H4 : regs_ok (map instr_of ex63_prog) = true) by (vm_compute; reflexivity).
+  assert (H5 : Forall int32 (regs zero32)) by (unfold zero32; cbn [regs repeat]; repeat constructor; vm_compute; discriminate).
+  assert (H6 : length (regs zero32) = 32%nat) by reflexivity.
+  assert (H7 : nth 0 (regs zero32) 0 = 0) by reflexivity.
+  destruct (mvp63_run_ssa_straight (map instr_of ex63_prog) no_labels Hwf H1 H2 H3 H4 par 100%nat zero32 st' _ Hpar H5 H6 H7 Hs ord) as (c & Hc & Hb).
+  exists c, st'. split; [exact Hs|]. split; [exact Hc|]. split; [exact R18|]. cbn [length rev map seq List.app] in Hb. lia.
+Qed.
+
+(* ------------------------------------------------------------------ *)
+(* evidence for the extension that is NOT proved: forward control flow on a single-assignment program.
+   li x5,1 ; li x6,2 ; beq x5,x6,L1 (not taken) ; addi x7,x5,3 ; bne x5,x6,L2 (taken) ; addi x8,x7,1 (shadow) ;
+   L1/L2: addi x9,x7,5 ; j L3 ; addi x10,x9,1 (skipped) ; L3: addi x11,x9,2 ; ret
+   - class fwd_ok of Mvp60RefProofs.v, ssa, regs_ok, register-only, NOT straight;
+   - sequential result at 1..4 units, both orders, ghost flag clear, nine instructions executed *)
+Definition fwd63_prog : list sinstr :=
+  [SLi 5 1; SLi 6 2; SBeq 5 6 1; SAddi 7 5 3; SBne 5 6 2; SAddi 8 7 1; SAddi 9 7 5; SJ 3; SAddi 10 9 1; SAddi 11 9 2; SRet].
+Definition fwd63_labels : Z -> option Z :=
+  fun l => if l =? 1 then Some 20 else if l =? 2 then Some 24 else if l =? 3 then Some 36 else None.
+
+Example mvp63_forward_ssa_example :
+  let app := map instr_of fwd63_prog in
+  straight app = false /\ reg_only app = true /\ ssa app = true /\ regs_ok app = true /\ fwd_ok app fwd63_labels = true /\
+  exists st' tr,
+    seq_run 100 (map sinstr_of app) fwd63_labels zero32 = Done st' tr /\ length tr = 9%nat /\
+    map (fun k => nth k (regs st') 0) [7; 8; 9; 10; 11]%nat = [4; 0; 9; 0; 11] /\
+    map (fun par => (mvp63_run_os par ord_asc 5000 app fwd63_labels zero32, mvp63_run_os par ord_desc 5000 app fwd63_labels zero32))
+        [1%nat; 2%nat; 3%nat; 4%nat]
+    = [((MDone 335 st', false), (MDone 335 st', false)); ((MDone 333 st', false), (MDone 333 st', false));
+       ((MDone 333 st', false), (MDone 333 st', false)); ((MDone 333 st', false), (MDone 333 st', false))].
+Proof.
+  cbv zeta. split; [vm_compute; reflexivity|]. split; [vm_compute; reflexivity|]. split; [vm_compute; reflexivity|].
+  split; [vm_compute; reflexivity|]. split; [vm_compute; reflexivity|].
+  do 2 eexists. split; [vm_compute; reflexivity|]. split; [vm_compute; reflexivity|]. split; vm_compute; reflexivity.
+Qed.
+
 Print Assumptions cu_cycle_os_clear.
 Print Assumptions mvp63_ssa_example_all_orders.
+Print Assumptions mvp63_run_ssa_straight.
+Print Assumptions mvp63_deterministic_ssa_straight.
+Print Assumptions mvp63_cycles_lower_bound_ssa_straight.
+Print Assumptions mvp63_ssa_example_any.
